@@ -26,6 +26,10 @@ from ..loader import where, AnalysisError
 from .. import poly
 
 
+def is_method(node, name):
+    return isinstance(node, ast.Call) and isinstance(node.func, ast.Attribute) and node.func.attr == name
+
+
 def literal_vec(node):
     if isinstance(node, (ast.List, ast.Tuple)):
         try:
@@ -129,7 +133,8 @@ def r1_fullfact(ctx, repo):
     bf = doe.functions.get("build_full_fact")
     t = text(bf)
     ok = "fullfact(factor_lvl_count)" in t and "construct_df(x, factor_lists)" in t and "factor_lvl_count.append(len(factor_level_ranges[key]))" in t
-    ctx.check(ok, "R1", "doe.build_full_fact", where(doe, bf), "level counts and level lists are collected in the same key order and passed to fullfact / construct_df", key="wiring")
+    ctx.check3(True if ok else None, "R1", "doe.build_full_fact", where(doe, bf), "level counts and level lists are collected in the same key order and passed to fullfact / construct_df",
+               unknown_detail="builder shape not recognised", key="wiring")
 
 
 def r2_pb(ctx, repo):
@@ -230,12 +235,29 @@ def r2_pb(ctx, repo):
     # codes -> two bounds
     bp = doe.functions.get("build_plackett_burman")
     ic = [f for f in ast.walk(bp) if isinstance(f, ast.FunctionDef) and f.name == "index_change"]
-    ok = False
-    if ic:
-        t = text(ic[0]).replace(" ", "")
-        ok = "ifx==-1:\nreturn0" in t.replace("    ", "") and "else:\nreturnx" in t.replace("    ", "")
-    okc = "construct_df(x, factor_lists)" in text(bp) and "pbdesign(factor_count)" in text(bp)
-    ctx.check(ok and okc, "R2", "doe.build_plackett_burman", where(doe, bp), "codes -1/+1 become indices 0/1 into [lo, hi]: only the two bounds occur" if (ok and okc) else "code-to-bound mapping changed", key="codes")
+    state = None
+    bad_detail = ""
+    if ic and "construct_df(x, factor_lists)" in text(bp) and "pbdesign(factor_count)" in text(bp):
+        # decision table of the code map over the two codes -1 / +1
+        f = ic[0]
+        arg = func_params(f)[0]
+        table = {}
+        for code in (-1, 1):
+            val = None
+            for st in f.body:
+                if isinstance(st, ast.If) and isinstance(st.test, ast.Compare) and access_path(st.test.left) == arg and is_const(st.test.comparators[0]) \
+                        and isinstance(st.test.ops[0], ast.Eq):
+                    br = st.body if code == const_value(st.test.comparators[0]) else st.orelse
+                    rr = [x for x in br if isinstance(x, ast.Return)]
+                    if rr:
+                        val = code if access_path(rr[0].value) == arg else (const_value(rr[0].value) if is_const(rr[0].value) else None)
+            table[code] = val
+        if table == {-1: 0, 1: 1}:
+            state = True
+        elif None not in table.values():
+            state, bad_detail = False, "codes -1/+1 are mapped to the level indices %s instead of 0/1: a design value is not the corresponding bound" % table
+    ctx.check3(state, "R2", "doe.build_plackett_burman", where(doe, bp), "codes -1/+1 become indices 0/1 into [lo, hi]: only the two bounds occur", bad_detail,
+               "code-to-bound mapping not recognised", key="codes")
 
 
 def r3_bb(ctx, repo):
@@ -320,13 +342,32 @@ def r3_bb(ctx, repo):
     # builder: one centre run, codes -> (lo, mid, hi)
     bb = doe.functions.get("build_box_behnken")      # the last definition wins
     t = text(bb)
-    okc = "bbdesign(factor_count, center=1)" in t
-    okm = "x = x + 1" in t and "construct_df(x, factor_lists)" in t and ".sort()" in t and "/ 2" in t
-    if not okc:
-        ctx.violated("R3", "doe.build_box_behnken", where(doe, bb), "the Box-Behnken builder does not request exactly one centre run", key="centre")
-    else:
-        ctx.holds("R3", "doe.build_box_behnken", where(doe, bb), "exactly one centre run (center=1)", key="centre")
-    ctx.check(okm, "R3", "doe.build_box_behnken", where(doe, bb), "codes -1/0/+1 shifted to indices 0/1/2 of the sorted list [lo, mid, hi]" if okm else "code-to-level mapping changed", key="codes")
+    bcalls = [c for c in calls_in(bb) if access_path(c.func) == "bbdesign"]
+    cstate, cval = None, None
+    if bcalls:
+        kw = {k.arg: k.value for k in bcalls[0].keywords}
+        cv = kw.get("center", bcalls[0].args[1] if len(bcalls[0].args) > 1 else None)
+        if cv is not None and is_const(cv):
+            cval = const_value(cv)
+            cstate = cval == 1
+        elif cv is None:
+            cstate, cval = False, "default (table value)"
+    ctx.check3(cstate, "R3", "doe.build_box_behnken", where(doe, bb), "exactly one centre run (center=1)",
+               "the Box-Behnken builder requests %r centre runs, the property requires exactly one" % (cval,), "centre-run argument not recognised", key="centre")
+    shift = [s_ for s_ in stmts_of(bb) if isinstance(s_, ast.Assign) and isinstance(s_.value, ast.BinOp) and isinstance(s_.value.op, ast.Add)
+             and access_path(s_.targets[0]) == access_path(s_.value.left) and is_const(s_.value.right)]
+    mid = [s_ for s_ in stmts_of(bb) if isinstance(s_, ast.Expr) and is_method(s_.value, "append") and "/ 2" in text(s_.value)]
+    mstate = None
+    mbad = ""
+    if shift and "construct_df(x, factor_lists)" in t:
+        k_ = const_value(shift[0].value.right)
+        if k_ != 1:
+            mstate, mbad = False, "codes -1/0/+1 are shifted by %r instead of 1: they no longer index (lo, mid, hi)" % k_
+        elif mid and ".sort()" in t:
+            ok_mid = bool(poly.equal(mid[0].value.args[0], poly.parse("(factor_level_ranges[key][0] + factor_level_ranges[key][1]) / 2")))
+            mstate = True if ok_mid else False
+            mbad = "the middle level %s is not the mean of the two bounds" % text(mid[0].value.args[0])
+    ctx.check3(mstate, "R3", "doe.build_box_behnken", where(doe, bb), "codes -1/0/+1 shifted to indices 0/1/2 of the sorted list [lo, mid, hi]", mbad, "code-to-level mapping not recognised", key="codes")
 
 
 def r4_gsd_partial(ctx, repo):
@@ -361,17 +402,28 @@ def r4_gsd_partial(ctx, repo):
     ls = doe.functions.get("_make_latin_square")
     t = text(ls) if ls else ""
     okls = "np.arange(n)" in t and "np.roll(numbers, -i) for i in range(n)" in t
-    ctx.check(okls, "R4", "doe._make_latin_square", where(doe, ls or mp), "cyclic latin square: row i is the base row rolled by i" if okls else "the latin square is not the cyclic one (rows rolled by 0..n-1)", key="latin-square")
+    rolled = [c for c in calls_in(ls) if (access_path(c.func) or "").endswith("roll")] if ls else []
+    lstate = True if okls else (False if (rolled and len(rolled[0].args) == 2 and text(rolled[0].args[1]) not in ("-i", "i")) else None)
+    ctx.check3(lstate, "R4", "doe._make_latin_square", where(doe, ls or mp), "cyclic latin square: row i is the base row rolled by i",
+               "row i is rolled by %s, not by i: the rows are not the n cyclic shifts, so symbols repeat within a column" % (text(rolled[0].args[1]) if rolled else "?"), "latin-square construction not recognised", key="latin-square")
     mpd = doe.functions.get("_map_partitions_to_design")
     t = text(mpd) if mpd else ""
     tt = t.replace("(", "").replace(")", "").replace(" ", "")
     okm = "itertools.product*partition_sets" in tt and "partitions[p][factor]forfactor,pinenumeraterow" in tt and "np.vstackmappings" in tt
-    ctx.check(okm, "R4", "doe._map_partitions_to_design", where(doe, mpd or mp), "each orthogonal-array row contributes the full product of its factors' partition sets" if okm else "row-to-design mapping changed", key="row-products")
+    ctx.check3(True if okm else None, "R4", "doe._map_partitions_to_design", where(doe, mpd or mp), "each orthogonal-array row contributes the full product of its factors' partition sets",
+               unknown_detail="row-to-design mapping not recognised", key="row-products")
     g = repo.cls("GSDGenerator", "operators")
     fn = g.methods.get("generate")
     t = text(fn)
     okg = "build_gsd(levels, self.reduction, self.n)" in t and "self.values[i][vector[i]]" in t and "levels.append(len(value))" in t
-    ctx.check(okg, "R4", "GSDGenerator.generate", where(g.module, fn), "codes index the supplied level lists factor by factor" if okg else "code-to-level mapping changed", key="codes")
+    look = [n_ for n_ in ast.walk(fn) if isinstance(n_, ast.Subscript) and isinstance(n_.value, ast.Subscript) and access_path(n_.value.value) == "self.values"]
+    gstate = True if okg else None
+    gbad = ""
+    if not okg and look:
+        outer_i, inner = text(look[0].value.slice), look[0].slice
+        if text(inner) != "vector[%s]" % outer_i:
+            gstate, gbad = False, "level looked up with %s: the code of factor %s must index that factor's own level list (self.values[%s][vector[%s]])" % (text(look[0]), outer_i, outer_i, outer_i)
+    ctx.check3(gstate, "R4", "GSDGenerator.generate", where(g.module, fn), "codes index the supplied level lists factor by factor", gbad, "code-to-level mapping not recognised", key="codes")
 
 
 def run(ctx):
